@@ -229,6 +229,41 @@ Theorem C19_write_trust_iter_no_partial_state :
     /\ (fst (write_trust_iter len it) = WOk -> k = len).
 Proof. exact (@write_trust_iter_slots). Qed.
 
+(* ============================================================ Vec1Mut / sort_unstable_by ======= *)
+(* (12) apply_mut_with: equal lengths -> f is applied once per position, in order, to (self[i],
+        other[i]); different lengths -> Err, no call made, self unchanged *)
+Theorem C19_apply_mut_with :
+  forall (T OT : Type) (f : T -> OT -> T) (xs : list T) (ys : list OT),
+    (length xs = length ys ->
+       exists out, apply_mut_with f xs ys = (true, out, combine xs ys) /\ length out = length xs /\
+         forall i x y, nth_error xs i = Some x -> nth_error ys i = Some y -> nth_error out i = Some (f x y))
+    /\ (length xs <> length ys -> apply_mut_with f xs ys = (false, xs, [])).
+Proof. exact (@apply_mut_with_spec). Qed.
+
+Theorem C19_get_mut :
+  forall (T : Type) (xs : list T) (i : nat),
+    ((i < length xs)%nat -> exists x, get_mut xs i = Some x /\ nth_error xs i = Some x)
+    /\ ((length xs <= i)%nat -> get_mut xs i = None).
+Proof. exact (@get_mut_spec). Qed.
+
+(* (13) sort_unstable_by with a total comparison: Ok, and the vector afterwards is a sorted
+        permutation of what it was (also on the copy-out / write-back path) *)
+Theorem C19_sort_unstable_by :
+  forall (T : Type) (leb : T -> T -> bool),
+    (forall x y, leb x y = false -> leb y x = true) ->
+    forall xs : list T,
+      sort_unstable_by leb xs = (true, isort leb xs)
+      /\ Sorted.Sorted (fun x y => leb x y = true) (isort leb xs)
+      /\ Permutation.Permutation (isort leb xs) xs.
+Proof. exact (@sort_unstable_by_spec). Qed.
+
+Example C19_mut_examples :
+  apply_mut_with (fun v o => 10 * v + o) [1; 2; 3] [7; 8; 9] = (true, [17; 28; 39], [(1, 7); (2, 8); (3, 9)])
+  /\ apply_mut_with (fun v o => 10 * v + o) [1; 2; 3] [7; 8] = (false, [1; 2; 3], [])
+  /\ sort_unstable_by Z.leb [3; 1; 2; 1] = (true, [1; 1; 2; 3])
+  /\ (forall x y, Z.leb x y = false -> Z.leb y x = true).
+Proof. split; [|split; [|split]]; try (vm_compute; reflexivity). intros x y H. apply Z.leb_le. apply Z.leb_gt in H. lia. Qed.
+
 (* ======================================================================= non-vacuity ======= *)
 (* non-divisible spans in both directions, an empty span, defaults *)
 Example C19_range_examples :
@@ -313,3 +348,6 @@ Print Assumptions C19_try_collect_cases_exhaustive.
 Print Assumptions C19_write_trust_iter.
 Print Assumptions C19_write_trust_iter_status.
 Print Assumptions C19_write_trust_iter_no_partial_state.
+Print Assumptions C19_apply_mut_with.
+Print Assumptions C19_get_mut.
+Print Assumptions C19_sort_unstable_by.
